@@ -2,6 +2,7 @@
 # usage: tools/seedmatrix.sh <out dir> <own|all> <seed ids...>
 # runs the registered checks (all of them, or only the check of the seed's own property) of a snapshot of /verif
 # (VERIF_DIR, built) against /repo/src + seeded/<id>/patch.diff; one summary file per seed in <out dir>
+export VERIF_EVIDENCE=${VERIF_EVIDENCE:-/verif/.scratch/evidence_seeded}; mkdir -p $VERIF_EVIDENCE/replays
 OUT=$1; MODE=$2; shift 2
 SNAP=${VERIF_DIR:-/tmp/verif_snap}
 mkdir -p $OUT
